@@ -1,0 +1,95 @@
+//go:build verif
+
+// Contracts for package sqlite, checked by /verif/engine (ebuverify).
+// Comments only: with the build tag off this file does not exist.
+package sqlite
+
+//@ event yieldErr1 := call func(*eventbus.StoredEvent, error) bool#1
+//@ event yieldElem := call func(*eventbus.StoredEvent, error) bool#2 record 1:Int
+//@ event yieldErr3 := call func(*eventbus.StoredEvent, error) bool#3
+//@ event yieldErr4 := call func(*eventbus.StoredEvent, error) bool#4
+//@ event yieldAny := call func(*eventbus.StoredEvent, error) bool
+//@ event y1 := call func(*eventbus.StoredEvent, error) bool#1
+//@ event y2 := call func(*eventbus.StoredEvent, error) bool#2
+//@ event y3 := call func(*eventbus.StoredEvent, error) bool#3
+//@ event y4 := call func(*eventbus.StoredEvent, error) bool#4
+//@ event nextCall := call rowScanner.Next
+//@ event errCall := call rowScanner.Err
+//@ event closeCall := call rowScanner.Close
+//@ event scanCall := call Scan
+
+// rowScanner: the slice of database/sql.Rows the store uses (assumed contract,
+// see /verif/contracts/deps_sql.spec).
+//@ method rowScanner.Next(rows)
+//@   effect opaque
+//@   modifies rowpos(payload(rows))
+//@   ensures result == (old(rowpos(payload(rows))) < rowsAvail(payload(rows))) && rowpos(payload(rows)) == old(rowpos(payload(rows))) + ite(result, 1, 0)
+//@ method rowScanner.Err(rows)
+//@   effect opaque
+//@   ensures (result != nil) <==> (rowsFailed(payload(rows)) && rowpos(payload(rows)) >= rowsAvail(payload(rows)))
+//@ method rowScanner.Close(rows)
+//@   effect opaque
+// The consumer of the iterator: arbitrary user code, called with no lock held.
+//@ callback func(*eventbus.StoredEvent, error) bool(fn, ev, err)
+//@   effect reentrant
+//@   unlocked
+
+//@ immutable {C10,C11} eventbus.StoredEvent.Offset eventbus.StoredEvent.Type eventbus.StoredEvent.Data eventbus.StoredEvent.Timestamp
+
+// ---------------------------------------------------------------- offsets
+//@ func parseOffset
+//@   props C10
+//@   effect pure
+//@   ensures [C10.parse.oldest] offset == "" ==> result0 == 0 && err == nil
+//@   ensures [C10.parse.inverse] offset != "" && isDec(offset) ==> err == nil && result0 == undec(offset)
+//@   ensures [C10.parse.invalid] offset != "" && !isDec(offset) ==> err != nil
+
+//@ func formatOffset
+//@   props C10
+//@   effect pure
+//@   ensures [C10.format] result == dec(position)
+
+// ---------------------------------------------------------------- streamBatch (C11)
+// One batch of rows.  cont == true is the caller's licence to treat a short
+// batch as the end of the log: it must only be given when the result set was
+// read to its real end.
+//@ func (*SQLiteStore).streamBatch
+//@   props C11
+//@   requires s != nil && rows != nil && eventCount != nil && iterErr != nil && yield != nil && rowpos(payload(rows)) == 0
+//@   requires 0 <= *eventCount && *eventCount <= 1000000000000000000
+//@   requires exclusive(eventCount)
+//@   requires exclusive(iterErr)
+//@   loop 1 invariant [C11.batch.loop] batchCount == rowpos(payload(rows)) && 0 <= batchCount && batchCount <= rowsAvail(payload(rows)) &&
+//@        cnt(yieldElem) == batchCount && cnt(yieldErr1) == 0 && cnt(yieldErr3) == 0 && cnt(yieldErr4) == 0 && 0 <= *eventCount && *eventCount <= 1000000000000000000 + batchCount
+//@   ensures [C11.batch.completeOnlyIfNoErr] cont ==> !rowsFailed(payload(rows)) && batchCount == rowsTotal(payload(rows))
+//@   ensures [C11.batch.count] cnt(yieldElem) <= rowsAvail(payload(rows)) && (cont ==> cnt(yieldElem) == batchCount)
+//@   ensures [C11.batch.errReported] cont || cnt(yieldErr1) + cnt(yieldErr3) + cnt(yieldErr4) == 1 || (cnt(yieldElem) > 0 && !lastres(yieldElem, Bool))
+//@   ensures [C11.batch.iterErr] rowsFailed(payload(rows)) && (cnt(yieldElem) == 0 || lastres(yieldElem, Bool)) && cnt(yieldErr1) == 0 ==> cnt(yieldErr3) == 1 && lastarg(yieldErr3, 1) == nil && lastarg(yieldErr3, 2, Iface) != nil && !cont
+
+// ---------------------------------------------------------------- scanEvents / streamRows
+//@ func (*SQLiteStore).scanEvents
+//@   props C10
+//@   requires s != nil && rows != nil && rowpos(payload(rows)) == 0
+//@   loop 1 invariant [C10.scan.loop] len(events) == rowpos(payload(rows)) && len(events) <= rowsAvail(payload(rows)) &&
+//@        (forall k int :: {events[k]} 0 <= k && k < len(events) ==> events[k] != nil && events[k].Offset == dec(scancolInt(payload(rows), k, 0)))
+//@   loop 1 owned events
+//@   ensures [C10.scan.all] err == nil ==> len(result0) == rowsTotal(payload(rows)) && !rowsFailed(payload(rows)) &&
+//@        (forall k int :: {result0[k]} 0 <= k && k < len(result0) ==> result0[k] != nil && result0[k].Offset == dec(scancolInt(payload(rows), k, 0)))
+//@   ensures [C10.scan.errChecked] rowsFailed(payload(rows)) ==> err != nil
+//@   ensures [C10.scan.closed] cnt(closeCall) == 1
+
+//@ func (*SQLiteStore).streamRows
+//@   props C11 C10
+//@   requires s != nil && rows != nil && ctx != nil && eventCount != nil && iterErr != nil && yield != nil && rowpos(payload(rows)) == 0
+//@   requires 0 <= *eventCount && *eventCount <= 1000000000000000000
+//@   requires exclusive(eventCount)
+//@   requires exclusive(iterErr)
+// yield sites of streamRows: #1 context cancelled, #2 scan error, #3 element, #4 iteration error
+//@   loop 1 invariant [C11.rows.loop] cnt(y3) == rowpos(payload(rows)) && cnt(y3) <= rowsAvail(payload(rows)) && cnt(y1) == 0 && cnt(y2) == 0 && cnt(y4) == 0 &&
+//@        0 <= *eventCount && *eventCount <= 1000000000000000000 + cnt(y3)
+//@   ensures [C11.rows.iterErr] rowsFailed(payload(rows)) && (cnt(y3) == 0 || lastres(y3, Bool)) && cnt(y1) == 0 && cnt(y2) == 0 ==>
+//@        cnt(y4) == 1 && lastarg(y4, 1) == nil && lastarg(y4, 2, Iface) != nil
+//@   ensures [C11.rows.complete] cnt(y1) + cnt(y2) + cnt(y4) == 0 && (cnt(y3) == 0 || lastres(y3, Bool)) ==>
+//@        cnt(y3) == rowsTotal(payload(rows)) && !rowsFailed(payload(rows))
+//@   ensures [C11.rows.cancel] cnt(y1) <= 1 && (cnt(y1) == 1 ==> lastarg(y1, 1) == nil && lastarg(y1, 2, Iface) != nil && ctxSeenDone(ctx))
+//@   ensures [C11.rows.closed] cnt(closeCall) == 1
